@@ -162,6 +162,40 @@ def plane_table(ctx):
         ok = len(live) == 1 and live[0].env.get('box') is pbox and len(used) >= 2 and all(b_ is pbox for b_ in used)
         ctx.ob('PLANE-TABLE', loc, '%s: the plane normal, and every Cartesian conversion after it, is taken in the (primitive) cell the returned indices refer to' % tag, bool(ok),
                'conversions used %s; cell in force after the head: %s' % ([type(b_).__name__ for b_ in used], type(live[0].env.get('box')).__name__ if live else None), node=pn[0], key='cell ' + tag)
+    # Miller-Bravais input: (hkil) is a *plane*: its three-index form drops i (the direction conversion 2h+k, 2k+h is for lattice vectors)
+    conv = []
+
+    class HB(PyStub):
+        def ishexagonal(self):
+            return True
+
+    class MilH(PyStub):
+        def plane4to3(self, u):
+            conv.append('plane4to3')
+            u = np.asarray(u, dtype=object)
+            return u[..., [0, 1, 3]]
+
+        def vector4to3(self, u):
+            conv.append('vector4to3')
+            u = np.asarray(u, dtype=object)
+            return np.array([2 * u[0] + u[1], 2 * u[1] + u[0], u[3]], dtype=object)
+
+        def vector_conventional_to_primitive(self, u, setting=None):
+            return u
+    ev = SymEval(module_aliases(ctx.mod(FSB)))
+    ev.globals = {'vector_crystal_to_cartesian': lambda u, box: np.asarray(u, dtype=object), 'miller': MilH(), 'int': lambda x: x}
+    ev.np_override = {'numpy.allclose': lambda a, b, **k: True, 'numpy.lcm.reduce': lambda v: sp.ilcm(*[int(x) for x in v]), 'numpy.lcm': lambda a, b: sp.ilcm(int(a), int(b)),
+                      'numpy.max': lambda v: max(int(x) for row in v for x in np.ravel(row))}
+    try:
+        q = ev.block(head, [Path({'hkl': arr([1, 0, -1, 2]), 'box': HB(), 'cutboxvector': 'c', 'maxindex': None, 'return_hexagonal': None, 'return_planenormal': True, 'conventional_setting': None,
+                                  'tol': sp.Rational(1, 10 ** 8)})])
+        live = [p_ for p_ in q if p_.done is None]
+        h3 = live[0].env.get('hkl') if len(live) == 1 else None
+        ok4 = conv == ['plane4to3'] and h3 is not None and [int(x) for x in np.ravel(h3)] == [1, 0, 2]
+    except (Opaque, WouldRaise, TypeError, ValueError) as e:
+        ok4, h3 = False, str(e)
+    ctx.ob('PLANE-TABLE', loc, 'a four-index plane (10-12) in a hexagonal cell is reduced as a plane: (h k l) = (1 0 2)', bool(ok4), 'conversions called %s, indices used %s' % (conv, h3 if isinstance(h3, str) else (None if h3 is None else list(np.ravel(h3)))),
+           node=fn, key='hkil')
 
 
 def _search_eval(ctx, fn, V, normal, maxindex, order=None, hkl=None, numpy_close=False):
@@ -454,7 +488,8 @@ def free_surface(ctx):
     # shifts midway between planes
     for tag, coords, w in (('three planes, none at the edge', [R(1, 8), R(1, 2), R(3, 4)], 2), ('plane at the cell origin', [0, R(1, 2), R(1, 4), R(1, 2)], 2), ('single plane', [R(1, 3)], 1), ('plane at both edges (periodic copy)', [0, 2, 4], 0),
                            ('three planes, out-of-plane box vector tilted (longer than the repeat distance along the normal)', [R(1, 8), R(1, 2), R(3, 4)], 1),
-                           ('plane at both edges (periodic copy), out-of-plane vector tilted', [0, 2, 4], 2)):
+                           ('plane at both edges (periodic copy), out-of-plane vector tilted', [0, 2, 4], 2),
+                           ('plane at both edges up to round-off (the top copy 1e-11 below the full width)', [0, 2, 4 - R(1, 10 ** 11)], 0)):
         vects = [[sp.Integer(0)] * 3 for _ in range(3)]
         for i in range(3):
             vects[i][i] = sp.Integer(4)
@@ -462,7 +497,7 @@ def free_surface(ctx):
             vects[w][(w + 1) % 3] = sp.Integer(3)
         letter = 'abc'[w]
         width = sp.Integer(4)
-        coords_abs = [sp.nsimplify(c) * (1 if tag.startswith('plane at both') else width) for c in coords] if not tag.startswith('plane at both') else [sp.Integer(c) for c in coords]
+        coords_abs = [sp.nsimplify(c) * (1 if tag.startswith('plane at both') else width) for c in coords] if not tag.startswith('plane at both') else [sp.sympify(c) for c in coords]
         try:
             obj, paths = run(letter, vects, coords_abs, w)
         except WouldRaise as e:
@@ -471,7 +506,10 @@ def free_surface(ctx):
         except Opaque as e:
             raise AnalysisError('FreeSurface.__init__ shifts (%s): %s' % (tag, e))
         sh = obj.attrs.get('_FreeSurface__shifts')
-        planes = sorted({c % width for c in coords_abs}, key=float)
+        planes = []
+        for c in sorted({c % width for c in coords_abs}, key=float):      # coordinates within the tolerance of one another (also across the periodic boundary) are one atomic plane
+            if not any(min(abs(c - p_), width - abs(c - p_)) <= R(1, 10 ** 7) for p_ in planes):
+                planes.append(c)
         ok = sh is not None and np.ndim(sh) == 2 and np.shape(sh)[1] == 3
         bad = []
         if ok:
@@ -482,7 +520,7 @@ def free_surface(ctx):
                     bad.append('shift %s not along the cut axis' % (list(s),))
                 new = sorted(((c + s[w]) % width for c in planes), key=float)
                 lo, hi = new[0], width - new[-1]
-                if not (lo > 0 and sp.simplify(lo - hi) == 0):
+                if not (lo > 0 and abs(sp.nsimplify(lo - hi)) <= R(1, 10 ** 7)):
                     bad.append('shift %s puts the cut %s above the top plane and %s below the next (not midway)' % (s[w], hi, lo))
             if len({sp.nsimplify(s[w]) for s in sh}) != len(sh):
                 bad.append('duplicate shifts')
@@ -589,6 +627,21 @@ def fault(ctx):
             box = Bxx()
             atoms = At(pos)
         return Sy()
+    class _IndexOf(PyStub):
+        # the indices at which a symbolic mask holds (np.where / np.flatnonzero of an undecided condition): stands for the same set of atoms as the mask
+        def __init__(self, mask):
+            self.mask = np.asarray(mask, dtype=object)
+
+        def __getitem__(self, k):
+            if k == 0:
+                return self
+            raise Opaque('np.where result indexed with %r' % (k,))
+
+    def _where(c, *a):
+        if a:
+            raise Opaque('three-argument np.where on a symbolic mask')
+        return (_IndexOf(c),)
+    _unmask = lambda m_: m_.mask if isinstance(m_, _IndexOf) else m_
     for ci in (0, 2):
         sysm = mk(ci)
         rel = sp.Symbol('r', real=True)
@@ -596,10 +649,11 @@ def fault(ctx):
         obj = SymObj(cls, {'system': sysm, 'cutindex': ci}, 'self')
         ev = SymEval(aliases)
         ev.decide = lambda text, v, p: False     # 0 <= rel <= 1
+        ev.np_override = {'numpy.where': _where, 'numpy.flatnonzero': lambda c: _IndexOf(c), 'numpy.nonzero': _where}
         fnr, _c = obj.lookup('faultpos_rel', setter=True)
         ev.run_fn(fnr, [obj, rel], {})
         cart = obj.attrs.get('_StackingFault__faultpos_cart')
-        mask = obj.attrs.get('_StackingFault__abovefault')
+        mask = _unmask(obj.attrs.get('_StackingFault__abovefault'))
         ok = cart is not None and is_zero(cart - (org + rel * width))
         ctx.ob('FAULT', loc + 'faultpos_rel.setter', 'cut axis %d: Cartesian fault position = box origin along the cut + relative position × cut width' % ci, bool(ok), 'got %s' % cart, node=fnr, key='rel->cart %d' % ci)
         okm = mask is not None and len(mask) == 4 and all(_is_gt(mask[i], Z[i] - (org + rel * width)) for i in range(4))
@@ -610,9 +664,10 @@ def fault(ctx):
         fnc, _c = obj2.lookup('faultpos_cart', setter=True)
         ev = SymEval(aliases)
         ev.decide = lambda text, v, p: False
+        ev.np_override = {'numpy.where': _where, 'numpy.flatnonzero': lambda c: _IndexOf(c), 'numpy.nonzero': _where}
         ev.run_fn(fnc, [obj2, cz], {})
         r2 = obj2.attrs.get('_StackingFault__faultpos_rel')
-        m2 = obj2.attrs.get('_StackingFault__abovefault')
+        m2 = _unmask(obj2.attrs.get('_StackingFault__abovefault'))
         ok = r2 is not None and is_zero(r2 - (cz - org) / width) and obj2.attrs.get('_StackingFault__faultpos_cart') == cz
         ctx.ob('FAULT', loc + 'faultpos_cart.setter', 'cut axis %d: relative fault position = (Cartesian position - box origin along the cut) / cut width, the inverse of the other setter' % ci, bool(ok), 'got %s' % r2, node=fnc, key='cart->rel %d' % ci)
         okm = m2 is not None and all(_is_gt(m2[i], Z[i] - cz) for i in range(4))
@@ -684,12 +739,16 @@ def fault(ctx):
                equal(orig.atoms.pos, P, deep=False) and len(log) == 1 and equal(log[0][1], want, deep=False), node=ffn, key='copy ' + tag)
     # minimum_r: the closest pair across the fault is looked for through the system's periodic separation (an upper atom may be closest to a periodic image of a lower one)
     for tag, Lx, top, bot, images in (('closest pair through a periodic image', 4, [R(39, 10), 0, R(11, 10)], [R(1, 10), 0, R(9, 10)], True), ('closest pair inside the cell', 40, [R(3, 10), 0, R(11, 10)], [R(1, 10), 0, R(9, 10)], False)):
-        Pc = np.array([bot, top], dtype=object)
-        maskc = np.array([False, True])
+        far = [R(Lx, 2), R(Lx, 2), R(9, 10)]                  # a second lower atom, listed first, far from the upper atom
+        Pc = np.array([far, bot, top], dtype=object)
         dcalls = []
 
+        class BxC(PyStub):
+            origin = arr([0, 0, 0])
+            vects = np.array([[Lx, 0, 0], [0, Lx, 0], [0, 0, 3]], dtype=object)
+
         class SyC(PyStub):
-            box, pbc, symbols, masses = 'BOX', (True, True, False), ('Al',), (None,)
+            box, pbc, symbols, masses = BxC(), (True, True, False), ('Al',), (None,)
 
             def __init__(self, pos):
                 self.atoms = At(pos)
@@ -708,7 +767,13 @@ def fault(ctx):
                             row[ax] += Lx
                 return d if len(d) > 1 else d[0]
         origc = SyC(Pc.copy())
-        obj = SymObj(cls, {'system': origc, 'cutindex': 2, 'abovefault': maskc, 'a1vect_cart': arr([Lx, 0, 0]), 'a2vect_cart': arr([0, Lx, 0]), 'faultpos_cart': R(1)}, 'self')
+        # which atoms are above the fault is whatever the fault-position setter records (a mask, or indices): set the position through it, then make the fault
+        obj = SymObj(cls, {'system': origc, 'cutindex': 2, 'a1vect_cart': arr([Lx, 0, 0]), 'a2vect_cart': arr([0, Lx, 0])}, 'self')
+        fpc, _c0 = obj.lookup('faultpos_cart', setter=True)
+        try:
+            SymEval(aliases).run_fn(fpc, [obj, R(1)], {})
+        except (Opaque, WouldRaise) as e:
+            raise AnalysisError('StackingFault.faultpos_cart setter on the model: %s' % e)
         ev = SymEval(aliases)
         def mksysc(atoms=None, box=None, pbc=None, symbols=None, masses=None, safecopy=False, **k_):
             if k_ or atoms is None:
@@ -720,7 +785,7 @@ def fault(ctx):
         except (Opaque, WouldRaise) as e:
             raise AnalysisError('StackingFault.fault (minimum_r, %s): %s' % (tag, e))
         ctx.need(len(r) == 1, 'fault(minimum_r=...) does not reduce to one path (%s)' % tag)
-        z = r[0].ret.atoms.pos[1][2]
+        z = r[0].ret.atoms.pos[2][2]
         wantz = R(9, 10) + sp.sqrt(1 - R(4, 100))          # in-plane separation 0.2 (through the image in the first case): out-of-plane separation sqrt(1 - 0.04)
         ok = abs(float(sp.N(sp.sympify(z) - wantz))) < 1e-9 and bool(dcalls)
         ctx.ob('FAULT', loc + 'fault', 'minimum_r, %s: the upper crystal is pushed out until the closest pair across the fault (by the periodic separation of the system) is exactly minimum_r apart' % tag, bool(ok),
